@@ -129,14 +129,27 @@ class Program:
     def _alias_impls(self, st, meth, self_ty, tr, inherent=False):
         """impls written on type aliases of one generic type (`impl Emitter for &mut CucumberQueue<W>` where
         `type CucumberQueue<W> = Queue<Source<Feature>, ..>`): pick the alias whose expansion is the callee's self type"""
+        if not hasattr(self, '_alias_cache'):
+            self._alias_cache = {}
+            self._alias_by_target = {}
+            for alias, target in self.tables.aliases.items():
+                self._alias_by_target.setdefault(target, []).append(alias)
+            self._alias_skel = {}
+        cands = [al for al in self._alias_by_target.get(st, []) if (al, meth) in self.by_method]
+        if not cands:
+            return []
+        key = (st, meth, self_ty, tr, inherent)
+        if key in self._alias_cache:
+            return self._alias_cache[key]
         want = T.skeleton(self.tables, self_ty)
         out = []
-        for alias, target in self.tables.aliases.items():
-            if target != st:
-                continue
-            if T.skeleton(self.tables, alias) != want:
+        for alias in cands:
+            if alias not in self._alias_skel:
+                self._alias_skel[alias] = T.skeleton(self.tables, alias)
+            if self._alias_skel[alias] != want:
                 continue
             out += [b for (t, b) in self.by_method.get((alias, meth), []) if (t is None if inherent else (tr is None or t == tr))]
+        self._alias_cache[key] = out
         return out
 
     def resolve(self, info):
